@@ -37,6 +37,7 @@ C17_OK(ev, i) == LET a == Base(ev, i) IN EolVariant(a.rows, ev.rows) /\ SameDoc(
 
 Holds(ev, i, p) ==
   CASE p = "C03" -> C03_OK(ev)
+    [] p = "C01" -> ev.out = "return" /\ ev.doc.wf = 1 /\ ev.work[5] = 0     \* only Return; no pass ever grew a list
     [] p = "C12" -> C12_OK(ev)
     [] p = "C12x" -> C12_ExQuoted(ev)
     [] p = "C09" -> C09_OK(ev)
@@ -62,6 +63,7 @@ Holds(ev, i, p) ==
 
 NonTrivial(ev, i, p) ==
   CASE p = "C03" -> C03_NT(ev)
+    [] p = "C01" -> ev.nchars > 0
     [] p = "C12" -> C12_NT(ev)
     [] p = "C09" -> C09_NT(ev)
     [] p = "C09run" -> TRUE
